@@ -16,6 +16,8 @@ REGISTRY = {
     "C02": "joinmeet",
     "C20": "kernels",
     "C05": "diagram",
+    "C06": "transform",
+    "C07": "invariance",
 }
 
 
